@@ -127,7 +127,9 @@ class ConformalElectionModel(BaseElectionModel.BaseElectionModel, ABC):
         upper_bound = (1 + alpha) / 2
         lower_bound = (1 - alpha) / 2
 
-        train_rows = math.floor(self.n_train * conf_frac)
+        # always keep at least one training row: at the minimum number of reporting units the
+        # rounded fraction can be 0, which would leave the quantile regressions with no data
+        train_rows = max(1, math.floor(self.n_train * conf_frac))
         train_data = reporting_units_shuffled[:train_rows]
 
         # the fixed effects in train_data will be a subset of the fixed effect of reporting_units since all
